@@ -244,6 +244,16 @@ class RawSession:
         self.agent.close()
         self.dead = True
 
+    def revive_agent(self):
+        """the peer comes back on the same port (after kill_agent): datagrams sent from now on are seen again"""
+        host, fam = self.net[0], self.net[1]
+        port = int(self.addr.rsplit(":", 1)[1])
+        a = socket.socket(fam, socket.SOCK_DGRAM)
+        a.bind((host, port))
+        a.setblocking(False)
+        self.agent = a
+        self.dead = False
+
     def drain(self):
         got = []
         if getattr(self, "dead", False):
@@ -256,7 +266,7 @@ class RawSession:
             except BlockingIOError:
                 return got
 
-    def send(self, op, oids=(), maxrep=None, iter_obj=None, names=None, itstart=None, oversize=False, walk=False):
+    def send(self, op, oids=(), maxrep=None, iter_obj=None, names=None, itstart=None, oversize=False, walk=False, peergone=False):
         """oids: texts. For getnext/getbulk a fresh GetIter is created from oids[0] unless iter_obj is given
         (then `names` must carry the OID content the iterator will ask for)."""
         from gufo.snmp import _fast
@@ -286,7 +296,7 @@ class RawSession:
                            names=[list(n) for n in names] if names is not None else [],
                            itstart=list(itstart) if itstart is not None else [],
                            maxrep=bigint(maxrep if maxrep is not None else 0), exc=exc, bases=bases, nwire=len(wires),
-                           wire=list(wire), interp=interp, oversize=bool(oversize), walk=bool(walk)))
+                           wire=list(wire), interp=interp, oversize=bool(oversize), walk=bool(walk), peergone=bool(peergone)))
         return wire if wires else None, exc
 
     def inject(self, dgram, extra_interp=()):
